@@ -18,10 +18,19 @@
      run_step / run_history   the store after one call / after a sequence of calls
      completed s              the call returned normally
      completed_rows / completed_probs   what the completed calls of a history stored, in order
-     all_rows lay data n      the full chain as a list of rows *)
+     all_rows lay data n      the full chain as a list of rows
+   The caller's objects, options, sizes (Model/ReadoutsWorld.v):
+     world = (heap, store, links)   the caller's arrays (start, widths, bounds, ...), the stored history, and which
+                              store cells are the same memory as an entry of a caller's array
+     event                    Call s (take_step / advance) | CallerWrite b j v (the caller executes buf_b[j] = v)
+     run_events, calls        the world after a history of events / the calls among them
+     construct lay npar h starts ps   what the constructors leave: a copy of the values of the start buffers
+     marginal_input_opt u     what get_marginal(..., unimodal=u) hands to its estimator
+     decimate m, marginal_input_decimated m   NOT the pinned code: every (size // m)-th retained value *)
 From Coq Require Import List ZArith Arith QArith Qround Sorting.Sorted Sorting.Permutation.
 Close Scope Q_scope.
-From IT Require Import Model.Readouts Proofs.ReadoutsProofs Model.ReadoutsSteps Proofs.ReadoutsStepsProofs.
+From IT Require Import Model.Readouts Proofs.ReadoutsProofs Model.ReadoutsSteps Proofs.ReadoutsStepsProofs
+  Model.ReadoutsWorld Proofs.ReadoutsWorldProofs.
 Import ListNotations.
 
 (* ---- the slice law: for every list, every burn >= 0 and thin >= 1 *)
@@ -217,6 +226,97 @@ Proof.
   - repeat split; vm_compute; reflexivity.
 Qed.
 
+(* ---- histories in which the caller goes on modifying, in place, the arrays it handed to the constructor *)
+(* a store that shares no memory with the caller is not touched by anything the caller writes into its own
+   arrays, wherever in the history: it is the store the calls alone produce *)
+Theorem C14_caller_writes_leave_store : forall lay evs w, w_links w = [] ->
+  w_store (run_events lay evs w) = run_history lay (calls evs) (w_store w) /\
+  w_links (run_events lay evs w) = [].
+Proof. exact run_events_no_links. Qed.
+
+(* every sampler (the constructors store copies): after any history of completed calls, interrupted calls and
+   writes of the caller to its start / widths / bounds ... arrays, the chain is the VALUES the start buffers had
+   when the constructor ran, followed by the rows of the completed calls; the three read-outs have the same
+   first dimension and row k of each is entry burn + k*thin of that chain (burn = 0 included: entry 0 is the
+   point the chain was started at, next to its own log-probability) *)
+Theorem C14_readouts_after_caller_writes : forall lay npar evs h starts ps i burn thin,
+  1 <= thin -> i < npar -> length starts = length ps ->
+  Forall (fun b => length (nth b h []) = npar) starts ->
+  Forall (step_ok npar) (calls evs) ->
+  let w' := run_events lay evs (construct lay npar h starts ps) in
+  let rows := start_rows h starts ++ completed_rows (calls evs) in
+  let pss := ps ++ completed_probs (calls evs) in
+  let L := slice_len (length pss) burn thin in
+  w_links w' = [] /\
+  length rows = length pss /\
+  length (get_sample lay (fst (w_store w')) burn thin) = L /\
+  length (get_parameter lay (fst (w_store w')) i burn thin) = L /\
+  length (get_probabilities (snd (w_store w')) burn thin) = L /\
+  forall k, k < L ->
+    burn + k * thin < length pss /\
+    nth k (get_sample lay (fst (w_store w')) burn thin) [] = nth (burn + k * thin) rows [] /\
+    nth k (get_parameter lay (fst (w_store w')) i burn thin) 0%Z
+      = nth i (nth (burn + k * thin) rows []) 0%Z /\
+    nth k (get_probabilities (snd (w_store w')) burn thin) 0%Z = nth (burn + k * thin) pss 0%Z.
+Proof. exact readouts_after_caller_writes. Qed.
+
+(* that the constructor copies is what this rests on: a constructor that keeps the caller's array itself as the
+   stored row (NOT the pinned code) gives the same chain, until one write of the caller to its own array makes
+   entry 0 differ from the starting point while the log-probability stored next to it stays *)
+Theorem C14_shared_start_refuted :
+  exists h ps b j v,
+    let w := construct_shared 2 h [b] ps in
+    let w' := run_events RowMajor [CallerWrite b j v] w in
+    get_sample RowMajor (fst (w_store w)) 0 1 = [nth b h []] /\
+    get_sample RowMajor (fst (w_store w')) 0 1 <> [nth b h []] /\
+    get_probabilities (snd (w_store w')) 0 1 = get_probabilities (snd (w_store w)) 0 1 /\
+    w_store (run_events RowMajor [CallerWrite b j v] (construct RowMajor 2 h [b] ps))
+    = w_store (construct RowMajor 2 h [b] ps).
+Proof. exact shared_start_refuted. Qed.
+
+(* ---- options and sizes *)
+(* marginal estimates of BOTH estimator types (unimodal = False / True) are built from exactly the retained
+   values, for every chain length *)
+Theorem C14_marginal_input_options : forall unimodal lay data probs n i burn thin,
+  1 <= thin -> wf lay data probs n -> (lay = ColMajor -> i < length data) ->
+  marginal_input_opt unimodal lay data i burn thin = get_parameter lay data i burn thin /\
+  length (marginal_input_opt unimodal lay data i burn thin) = slice_len n burn thin /\
+  forall k, k < slice_len n burn thin ->
+    nth k (marginal_input_opt unimodal lay data i burn thin) 0%Z
+    = nth i (chain_row lay data (burn + k * thin)) 0%Z.
+Proof. exact marginal_input_opt_spec. Qed.
+
+(* a size-dependent shortcut with threshold m (NOT the pinned code: every (size // m)-th retained value goes to
+   the estimator) is the documented behaviour on every chain retaining fewer than 2m values and loses values on
+   every chain retaining 2m or more: only chains beyond the threshold can tell them apart *)
+Theorem C14_size_shortcut_refuted : forall m unimodal lay data i burn thin, 1 <= m ->
+  (length (get_parameter lay data i burn thin) < 2 * m ->
+   marginal_input_decimated m unimodal lay data i burn thin
+   = marginal_input_opt unimodal lay data i burn thin) /\
+  (2 * m <= length (get_parameter lay data i burn thin) ->
+   length (marginal_input_decimated m true lay data i burn thin)
+   < length (marginal_input_opt true lay data i burn thin)).
+Proof. exact size_shortcut_refuted. Qed.
+
+(* non-vacuity: a two-parameter chain started from the caller's array [10; 20]; a completed call, the caller
+   overwrites both entries of its array, a call interrupted at its first evaluation, a completed call *)
+Example C14_caller_writes_example :
+  let h := [[10; 20]; [1; 1]]%Z in
+  let evs := [Call (mkStep 2 [[11; 21]] [3] 0); CallerWrite 0 0 77; CallerWrite 0 1 88;
+              Call (mkStep 3 [[99; 98]] [97] 1); CallerWrite 1 0 5; Call (mkStep 1 [[12; 22]] [6] 0)]%Z in
+  Forall (fun b => length (nth b h []) = 2) [0] /\ Forall (step_ok 2) (calls evs) /\
+  w_heap (run_events ColMajor evs (construct ColMajor 2 h [0] [5%Z])) = [[77; 88]; [5; 1]]%Z /\
+  w_store (run_events ColMajor evs (construct ColMajor 2 h [0] [5%Z]))
+  = ([[10; 11; 12]; [20; 21; 22]], [5; 3; 6])%Z /\
+  get_sample RowMajor (fst (w_store (run_events RowMajor evs (construct RowMajor 2 h [0] [5%Z])))) 0 2
+  = [[10; 20]; [12; 22]]%Z.
+Proof.
+  cbv zeta. split; [|split].
+  - repeat constructor.
+  - repeat constructor.
+  - repeat split; vm_compute; reflexivity.
+Qed.
+
 (* ---- the pinned tree (kept as *_pinned definitions in the model) *)
 (* D25: HamiltonianChain.get_parameter squeezes a single retained sample to 0-d *)
 Theorem C14_hmc_squeeze_refuted :
@@ -284,3 +384,8 @@ Print Assumptions C14_call_evaluations_see_old_chain.
 Print Assumptions C14_history_chain.
 Print Assumptions C14_readouts_after_interruptions.
 Print Assumptions C14_nonatomic_step_refuted.
+Print Assumptions C14_caller_writes_leave_store.
+Print Assumptions C14_readouts_after_caller_writes.
+Print Assumptions C14_shared_start_refuted.
+Print Assumptions C14_marginal_input_options.
+Print Assumptions C14_size_shortcut_refuted.
